@@ -143,9 +143,13 @@ fn guard_drop_decrements_once_and_wakes_iff_was_at_limit() {
 fn reach() {
     let (c, c0) = any_counter();
     kani::assume(c0 >= 1 && c0 < usize::MAX);
-    kani::cover!(c.clone().inc());
-    kani::cover!(!c.clone().inc());
-    let d = c.dec();
-    kani::cover!(d);
-    kani::cover!(!d);
+    if kani::any() {
+        let i = c.inc();
+        kani::cover!(i);
+        kani::cover!(!i);
+    } else {
+        let d = c.dec();
+        kani::cover!(d);
+        kani::cover!(!d);
+    }
 }
